@@ -64,7 +64,7 @@ func (g *G) feeToken(v *view, msgs []script.Msg) string {
 		if g.chance(90) {
 			return "-"
 		}
-		return g.pick("1nund", "5btoken", "1000atoken", "1btoken,1nund", "0nund")
+		return g.pick("1nund", "5btoken", "1000atoken", "1btoken,1nund", "0nund", "1nund,1xtoken")
 	}
 	var first string
 	for d := range fee {
@@ -116,8 +116,11 @@ func (g *G) feeToken(v *view, msgs []script.Msg) string {
 	case x < g.w.exactPct+3*(100-g.w.exactPct)/5:
 		return "-"
 	case x < g.w.exactPct+4*(100-g.w.exactPct)/5:
-		bump("btoken", 1)
+		bump(g.pick("btoken", "xtoken"), 1) // an extra denomination sorting before / after the native one
 	default:
+		if g.chance(50) {
+			return "1" + first + ",1000xtoken"
+		}
 		return "1000btoken,1" + first
 	}
 	return coinList(fee)
@@ -349,7 +352,8 @@ func (g *G) govMsg(v *view) script.Msg {
 		}
 		return script.M(kind, auth, denom, f[0], f[1], f[2], l[0], l[1])
 	}
-	fee := g.pick("0", "1", "10000000000000000", "500000000000000000", "1000000000000000000", "240000000000000000")
+	fee := g.pick("0", "1", "10000000000000000", "500000000000000000", "1000000000000000000", "240000000000000000",
+		"25000000000000000", "5000000000000000", "999000000000000000", "123456789012345678")
 	if !valid && g.chance(60) {
 		fee = g.pick("-1", "1000000000000000001", "2000000000000000000")
 	}
